@@ -157,6 +157,37 @@ class Ctx:
 # ---------------------------------------------------------------------------------------------
 # fan-out: run  module.func(ctx, arg)  for every arg in child processes (never multiprocessing.Pool)
 # ---------------------------------------------------------------------------------------------
+class _Slots:
+    """Machine-wide bound on concurrently running workers of ALL check invocations (several checks may run side by side: seed regression,
+    sweeps, sub-agents): one flock'ed file per slot under /tmp.  Without it a dozen parallel checks put > 150 processes on 16 cores and the
+    wall-clock watchdogs turn load into 'inconclusive'.  A single check on an idle machine is not slowed down (slots >= its own fan-out)."""
+
+    def __init__(self):
+        self.n = int(os.environ.get('VERIF_GLOBAL_SLOTS', '20'))
+        self.dir = os.environ.get('VERIF_SLOT_DIR', '/tmp/vf_slots')
+        try:
+            os.makedirs(self.dir, exist_ok=True)
+        except OSError:
+            self.n = 0
+
+    def acquire(self):
+        """a held slot (open file object) or None when none is free right now; False when slots are not available at all"""
+        if self.n <= 0:
+            return False
+        import fcntl
+        for i in range(self.n):
+            try:
+                f = open(os.path.join(self.dir, f'slot{i}'), 'a')  # noqa: SIM115
+            except OSError:
+                return False
+            try:
+                fcntl.flock(f, fcntl.LOCK_EX | fcntl.LOCK_NB)
+                return f
+            except OSError:
+                f.close()
+        return None
+
+
 def fanout(ctx: Ctx, module: str, func: str, args: list, nproc: int = 16, timeout: float = 1500.0, env=None):
     """Run ``module.func(child_ctx, arg)`` in child interpreters, at most nproc at once; merge the results.
 
@@ -169,9 +200,16 @@ def fanout(ctx: Ctx, module: str, func: str, args: list, nproc: int = 16, timeou
     base_env = dict(os.environ)
     if env:
         base_env.update(env)
+    slots = _Slots()
     try:
         while pending or running:
             while pending and len(running) < nproc:
+                slot = slots.acquire()
+                if slot is None and running:
+                    break  # machine-wide bound reached: wait for a free slot (own workers keep running)
+                if slot is None:
+                    time.sleep(0.2)
+                    continue
                 idx, arg = pending.pop(0)
                 inp = os.path.join(tmpdir, f'in{idx}.json')
                 out = os.path.join(tmpdir, f'out{idx}.json')
@@ -180,11 +218,11 @@ def fanout(ctx: Ctx, module: str, func: str, args: list, nproc: int = 16, timeou
                                'module': module, 'func': func, 'arg': arg, 'out': out}, f)
                 errf = open(os.path.join(tmpdir, f'err{idx}.txt'), 'w+')
                 p = subprocess.Popen([PY, '-X', 'faulthandler', '-m', 'vf.worker', inp], stdout=errf, stderr=errf,
-                                     env=base_env, cwd=VERIF_DIR)
-                running.append((p, idx, out, errf, time.time()))
+                                     env=base_env, cwd=VERIF_DIR, close_fds=True)
+                running.append((p, idx, out, errf, time.time(), slot))
             time.sleep(0.02)
             still = []
-            for p, idx, out, errf, t0 in running:
+            for p, idx, out, errf, t0, slot in running:
                 rc = p.poll()
                 if rc is None:
                     if time.time() - t0 > timeout:
@@ -192,9 +230,13 @@ def fanout(ctx: Ctx, module: str, func: str, args: list, nproc: int = 16, timeou
                         p.wait()
                         ctx.not_decided(f'worker {func}#{idx} hit the wall-clock watchdog ({timeout}s)')
                         errf.close()
+                        if slot:
+                            slot.close()
                     else:
-                        still.append((p, idx, out, errf, t0))
+                        still.append((p, idx, out, errf, t0, slot))
                     continue
+                if slot:
+                    slot.close()
                 errf.seek(0)
                 err_txt = errf.read()
                 errf.close()
